@@ -129,7 +129,10 @@ package statsd
 //@   requires forall i int :: 0 <= i && i < len(bh.workers) ==> bh.workers[i] != nil
 //@   requires wfdCounters(mm.Counters) && wfdGauges(mm.Gauges) && wfdTimers(mm.Timers) && wfdSets(mm.Sets)
 //@   callsite Split requires count == bh.numWorkers
-//@   sendsite requires ch == bh.workers[aggrIdx].metricMapQueue && val == maps[aggrIdx] && routedTo(val, aggrIdx, bh.numWorkers)
+//@   requires forall i int, j int :: 0 <= i && i < j && j < len(bh.workers) ==> bh.workers[i].metricMapQueue != bh.workers[j].metricMapQueue
+//@   sendsite requires val != nil && (forall i int :: 0 <= i && i < bh.numWorkers && ch == bh.workers[i].metricMapQueue ==> routedTo(val, i, bh.numWorkers))
+//@   sendsite requires exists i int :: 0 <= i && i < bh.numWorkers && ch == bh.workers[i].metricMapQueue
 //@   loop 1 invariant len(maps) == bh.numWorkers && len(bh.workers) == bh.numWorkers && (forall i int :: 0 <= i && i < len(maps) ==> maps[i] != nil) && (forall i int :: 0 <= i && i < len(bh.workers) ==> bh.workers[i] != nil)
+//@   loop 1 invariant forall i int, j int :: 0 <= i && i < j && j < len(bh.workers) ==> bh.workers[i].metricMapQueue != bh.workers[j].metricMapQueue
 //@   loop 1 invariant routedOnlyC(maps, bh.numWorkers) && routedOnlyG(maps, bh.numWorkers) && routedOnlyT(maps, bh.numWorkers) && routedOnlyS(maps, bh.numWorkers)
 //@   modifies sent
